@@ -1,4 +1,5 @@
 import GnoVerif.Proofs.C08Main
+import GnoVerif.Proofs.C08Origin
 import GnoVerif.Proofs.C08Denom
 import GnoVerif.Spec.C08Demo
 /-!
@@ -29,18 +30,6 @@ language guarantee), that the interpreter reaches the bank only through these fu
 and that the model is the code (tied by differential correspondence on every run).
 -/
 namespace GnoVerif.C08
-
-/-- who signed a message -/
-def Msg.signer : Msg → Nat
-  | .call s _ _ _ _ => s
-  | .run s _ _ _ => s
-  | .bankSend s _ _ => s
-
-/-- the coins a message sends along (`OriginSend`) -/
-def Msg.send : Msg → Coins
-  | .call _ _ c _ _ => c
-  | .run _ c _ _ => c
-  | .bankSend _ _ _ => []
 
 /-! ## the first sentence: a balance decreases only with the address's authority -/
 
@@ -261,25 +250,21 @@ example : balAfter (.call 1 demoRA [] 0 [.nb 2 .c, .sd (S!"ra") (S!"u2") (u 7)])
 
 /-! ## the second sentence: origin send -/
 
-/-- the full claim: over a whole message, what OriginSend bankers debit per denomination is
-    at most what the message sent along.  NOT proved in this form (it needs `Coins.Add` =
-    pointwise sum, i.e. the merge algebra of `addUnsafe`, to identify the running total
-    `spent` with the arithmetic sum of the debits). -/
-def origin_send_statement : Prop :=
-  ∀ (ch : Chain) (w : World) (m : Msg) (o : Outcome), ChainOk ch → step ch w m = .ok o → ∀ d : Str,
-    (o.log.filter (fun e => match e.cause with
-        | .bankerSend bid => (match o.bankers[bid]? with | some bi => decide (bi.bt = 1) | none => false) &&
-            decide (e.amt < 0) && decide (e.denom = d)
-        | _ => false)).foldr (fun e acc => -e.amt + acc) 0 ≤ amountOf m.send d
+/-- THE SECOND SENTENCE, for all chains, worlds, messages and scripts: per denomination, what
+    SendCoins of OriginSend bankers (type 1, created in this message or persisted earlier, used
+    by whichever realm holds them) debits in a successful message is at most what the message
+    sent along.  `originDebits` sums the debits of the event log whose cause is a banker of type
+    1 (Proofs/C08Origin.lean); the proof identifies that sum with the running total `spent`
+    (`Coins.Add` is the pointwise sum, Proofs/C08Sum.lean) which `OriginSend.IsAllGTE` bounds. -/
+theorem origin_send_budget (ch : Chain) (w : World) (m : Msg) (o : Outcome) (h : step ch w m = .ok o) (d : Str) :
+    originDebits o.bankers o.log d ≤ amountOf m.send d :=
+  step_origin_budget ch w m o h d
 
-/-- PROVED PART: the rule itself.  A send through an OriginSend banker (type 1) succeeds
-    only if `spent' = Coins.Add(spent, amt)` is a valid set that the coins sent along cover
-    denomination by denomination (`OriginSend.IsAllGTE(spent')`), and `spent'` becomes the
-    new running total; bankers of other types never touch the total.  And over a whole
-    script (`spent_stays_within_budget`) the running total, once changed, always satisfies
-    that bound.  Missing for `origin_send_statement`: `amountOf (coinsAdd a b) d =
-    amountOf a d + amountOf b d`. -/
-theorem origin_send_within_budget_partial (osend spent : Coins) (bt : Nat) (amt spent' : Coins)
+/-- The rule itself (decision level): a send through an OriginSend banker succeeds only if
+    `spent' = Coins.Add(spent, amt)` is a valid set that the coins sent along cover
+    (`OriginSend.IsAllGTE(spent')`), and `spent'` becomes the new running total; bankers of
+    other types never touch the total. -/
+theorem origin_check_rule (osend spent : Coins) (bt : Nat) (amt spent' : Coins)
     (h : originCheck osend spent bt amt = .ok spent') :
     (bt = 1 → coinsAdd spent amt = some spent' ∧ isAllGTE osend spent' = true) ∧ (bt ≠ 1 → spent' = spent) := by
   unfold originCheck at h
@@ -306,9 +291,9 @@ theorem spent_stays_within_budget (env : Env) (f : Nat) (cx : Ctx) (b : Option N
   cases hat with
   | tok _ _ => exact hi
   | banker _ _ => exact hi
-  | move _ _ _ _ _ => exact hi
+  | move _ _ _ _ _ _ => exact hi
   | supply _ _ _ => exact hi
-  | spent s hs =>
+  | spent s hs _ =>
     rcases hs with h1 | h1
     · simp only [h1]; exact hi
     · exact Or.inr h1
